@@ -189,6 +189,17 @@ Definition truthy (v : val) : bool :=
   | VDict _ _ kvs => match kvs with [] => false | _ => true end
   | _ => true end.
 
+(* forget identity labels: value-level comparison *)
+Fixpoint strip_ids (v : val) : val :=
+  match v with
+  | VList _ xs => VList 0 (map strip_ids xs)
+  | VTuple _ xs => VTuple 0 (map strip_ids xs)
+  | VSet _ fz xs => VSet 0 fz (map strip_ids xs)
+  | VDict _ od kvs => VDict 0 od ((fix go (l : list (val * val)) := match l with [] => [] | (k, x) :: r => (strip_ids k, strip_ids x) :: go r end) kvs)
+  | VObj _ c attrs => VObj 0 c ((fix go (l : list (string * val)) := match l with [] => [] | (k, x) :: r => (k, strip_ids x) :: go r end) attrs)
+  | _ => v end.
+Definition val_eqb_noid (a b : val) : bool := val_eqb (strip_ids a) (strip_ids b).
+
 (* ---------- exceptions and results ---------- *)
 Record exn := mkExn { ecls : string; eidx : nat; einner : string; emsg : string }.
 (* ecls: class name; eidx: part_idx (PathAccessError) ; einner: class of the wrapped lookup error *)
